@@ -195,3 +195,13 @@ Proof.
   rewrite !Nat2N.id, fixed_enc_app.
   rewrite (fixed_roundtrip k vals (fixed_enc k extra) Hvs). reflexivity.
 Qed.
+
+(* the view chosen from (width, dictionary size): whenever the signed view is taken only for dictionaries inside the signed range,
+   every index that addresses the dictionary comes back unchanged *)
+Theorem view_holds_every_index k n v (signed : bool) :
+  (1 <= k)%nat -> (signed = true -> n <= 2 ^ (8 * N.of_nat k - 1)) -> v < n -> n <= 2 ^ (8 * N.of_nat k) ->
+  view_value signed k v = Z.of_N v.
+Proof.
+  intros Hk Hs Hv Hn. unfold view_value. destruct signed; [|reflexivity].
+  apply signed_view_exact; [exact Hk | lia | specialize (Hs eq_refl); lia].
+Qed.
